@@ -40,6 +40,7 @@ type VerifC12Opts struct {
 	WildcardTLSSecret   string   // ns/name
 	ExternalServiceName string   // the controller's own Service (namespace nginx-ingress)
 	Namespaces          []string // watched namespaces; empty = all (one global informer)
+	WatchNamespaceLabel string   // -watch-namespace-label: the namespaces above are the ones carrying the label at start
 }
 
 // VerifC12New builds the controller through NewLoadBalancerController.
@@ -80,6 +81,7 @@ func VerifC12NewOpts(cnf *configs.Configurator, o VerifC12Opts) (*VerifC12, erro
 		DefaultServerSecret:          o.DefaultServerSecret,
 		WildcardTLSSecret:            o.WildcardTLSSecret,
 		ExternalServiceName:          o.ExternalServiceName,
+		WatchNamespaceLabel:          o.WatchNamespaceLabel,
 		Pod:                          &api_v1.Pod{ObjectMeta: meta_v1.ObjectMeta{Name: "nic-pod", Namespace: "nginx-ingress"}},
 		DynamicWeightChangesReload:   dynWeights,
 	})
@@ -110,6 +112,8 @@ func kindOf(k string) (kind, error) {
 		return configMap, nil
 	case "secret":
 		return secret, nil
+	case "namespace":
+		return namespace, nil
 	}
 	return 0, fmt.Errorf("unknown kind %q", k)
 }
@@ -209,6 +213,28 @@ func (v *VerifC12) PutClientSecret(s *api_v1.Secret) error {
 	_, err := c.Update(context.TODO(), s, meta_v1.UpdateOptions{})
 	return err
 }
+
+// SetNamespace creates the (Active) Namespace in the fake API server and puts it into, or takes it out of, the
+// store of the label-filtered Namespace informer (what a label edit does).
+func (v *VerifC12) SetNamespace(name string, labelled bool) error {
+	nsObj := &api_v1.Namespace{ObjectMeta: meta_v1.ObjectMeta{Name: name}, Status: api_v1.NamespaceStatus{Phase: api_v1.NamespaceActive}}
+	c := v.lbc.client.CoreV1().Namespaces()
+	if _, err := c.Get(context.TODO(), name, meta_v1.GetOptions{}); err != nil {
+		if _, err := c.Create(context.TODO(), nsObj, meta_v1.CreateOptions{}); err != nil {
+			return err
+		}
+	}
+	if v.lbc.namespaceLabeledLister == nil {
+		return fmt.Errorf("the controller does not watch namespaces by label")
+	}
+	if labelled {
+		return v.lbc.namespaceLabeledLister.Add(nsObj)
+	}
+	return v.lbc.namespaceLabeledLister.Delete(nsObj)
+}
+
+// Watched says whether the controller has informers for the namespace.
+func (v *VerifC12) Watched(ns string) bool { return v.lbc.getNamespacedInformer(ns) != nil }
 
 // Flags reads the batch and start-up state of the controller.
 func (v *VerifC12) Flags() (ready, batch, enableBatchReload, updateAllOnBatch bool) {
